@@ -172,7 +172,7 @@ def main(ck, tier, w):
     # ---- an index of realistic size: a node stopped during initial block download (a header-only block right above the tip with
     # hundreds of stored but unconnectable blocks on top of it) plus a long reorged-out branch - thousands of candidates, most of
     # them ranking above the real tip; repeated with several pool sizes (the choice of the tip is no race)
-    A, S0, S1, TOP = (400, 101, 300, 300) if quick else (1500, 101, 1200, 1000)
+    A, S0, S1, TOP = (400, 101, 300, 2200) if quick else (1500, 101, 1200, 5000)
     recs = [{'id': h, 'h': h, 'prev': h - 1, 'data': True, 'valid': 5, 'failed': False} for h in range(A + 1)]
     prev = S0 - 1
     for h in range(S0, S1 + 1):
